@@ -11,14 +11,23 @@ mod any;
 mod c10;
 mod c12;
 mod cfg;
+mod ctor;
 mod ctrl;
+mod delay;
+mod e2;
 mod explore;
 mod frame;
 mod kf;
 mod ops;
+mod poly;
 mod probe;
 mod run;
+mod sched;
+mod simd;
+mod spectral;
+mod streams;
 mod track;
+mod tree;
 mod twin;
 
 use frame::{Check, Tier};
@@ -37,6 +46,16 @@ fn registry() -> Vec<Box<dyn Check>> {
         Box::new(ctrl::CtrlCheck { id: "C10" }),
         Box::new(ctrl::CtrlCheck { id: "C17" }),
         Box::new(c12::C12),
+        Box::new(streams::C05),
+        Box::new(streams::C07),
+        Box::new(tree::C11),
+        Box::new(tree::C16),
+        Box::new(sched::C18),
+        Box::new(simd::C15),
+        Box::new(poly::C08),
+        Box::new(delay::C14),
+        Box::new(spectral::C01),
+        Box::new(spectral::C02),
     ]
 }
 
